@@ -52,12 +52,13 @@ POOL = [
     '$.toSet().union([7].toSet()).orderBy($).toList()',                        # 13 sets
     '$.select($ * 2).indexOf(4) + $.len()',                                    # 14 overload-rich names
     '$.zip($.skip(1)).select($[0] + $[1]).takeWhile($ < 100).toList()',        # 15 zip/skip/takeWhile
+    '$.orderBy($).toList()',                                                   # 16 plain sort (short trace)
 ]
-DOCS = [[1, 1, 2, 3, 3], [3, 3, 1, 2, 2], [2, 5, 5, 1]]
+DOCS = [[1, 1, 2, 3, 3], [3, 3, 1, 2, 2], [2, 5, 5, 1], [2, 1], [2, 1, 3], [3, 1, 2]]
 CORE_Q = [0, 1, 2, 3, 5, 7, 8, 14]
-MONITOR_Q = [1, 12]
+MONITOR_Q = [(1, 0), (3, 3), (8, 0), (12, 0)]      # (statement, document)
 BOUNDS = {
-    'quick': 'coarse: all unordered pairs (incl. same statement twice) of an 8-statement core with preemption bound 1, the deep pairs whose point count allows it with bound 2, '
+    'quick': 'coarse: all unordered pairs (incl. same statement twice) of an 8-statement core with preemption bound 1, 6 deep pairs with bound 2 where points**2 <= 25000 (small documents), each split into 6 disjoint shards, '
              '4 triples with bound 1; fine: 2 ordered pairs, every line event; monitor: 4 statements',
     'thorough': 'coarse: all pairs of the 16-statement pool with bound 2 (bound 3 for an 8-pair core), all triples of a 5-statement core with bound 2; '
                 'fine: 40 ordered pairs, every line event; monitor: all 16 statements; yaql.eval module path',
@@ -182,7 +183,7 @@ def shared_digest(skip_globals=()):
 
 
 # ---------------------------------------------------------------------------
-def job_coarse(groups, max_bound, label, budget=None):
+def job_coarse(groups, max_bound, label, budget=None, shard=None):
     """groups: list of tuples of (statement index, document index).  The preemption bound of a group is the
     largest b <= max_bound with (total scheduling points)**b <= budget (schedules grow like points**b)."""
     res = Result()
@@ -214,21 +215,33 @@ def job_coarse(groups, max_bound, label, budget=None):
                 stats['bad'] += 1
                 r2 = sched.run_schedule(bodies, x.choices)
                 if list(r2.res) != list(x.res):
-                    raise AssertionError('replay of schedule not deterministic')
+                    # the same schedule gives another result the second time: state survives an evaluation
+                    res.fail('schedule outcome not reproducible (state carried over between evaluations) statements=%s'
+                             % '|'.join(sorted(set(str(i) for i, d in g))),
+                             {'kind': 'coarse', 'threads': [list(t) for t in g], 'choices': list(x.choices),
+                              'texts': [POOL[i] for i, d in g]},
+                             'first run %r, replay %r, alone %r' % (x.res, r2.res, base), size=len(x.choices))
+                    return
                 res.fail('interference threads=%d statements=%s' % (len(g), '|'.join(sorted(set(str(i) for i, d in g)))),
                          {'kind': 'coarse', 'threads': [list(t) for t in g], 'choices': list(x.choices),
                           'texts': [POOL[i] for i, d in g]},
                          'schedule %r: results %r; alone %r' % (x.choices, x.res, base),
                          size=len(x.choices))
-            elif shared_digest() != d0:
+            elif stats['n'] % 20 == 1 and shared_digest() != d0:
+                # (the digest costs 7 ms: sampled every 20th schedule here, and once more after the last one)
                 res.fail('shared state changed by evaluation statements=%s' % '|'.join(sorted(set(str(i) for i, d in g))),
                          {'kind': 'coarse', 'threads': [list(t) for t in g], 'choices': list(x.choices),
                           'texts': [POOL[i] for i, d in g]}, 'identity digest of the shared context/statements/engine/modules changed',
                          size=len(x.choices))
-        n, capped = sched.explore(bodies, bound, check, max_schedules=400000)
+        n, capped = sched.explore(bodies, bound, check, max_schedules=400000, shard=shard)
+        if shared_digest() != d0:
+            res.fail('shared state changed by evaluation statements=%s' % '|'.join(sorted(set(str(i) for i, d in g))),
+                     {'kind': 'coarse', 'threads': [list(t) for t in g], 'choices': [],
+                      'texts': [POOL[i] for i, d in g]}, 'identity digest of the shared context/statements/engine/modules changed '
+                     'after the schedules of this group')
         if capped:
             res.caps.append('coarse group %r capped at %d schedules' % (g, n))
-        res.case((label, g, bound))
+        res.case((label, g, bound, shard))
         res.states += n - 1
         res.outcomes['%s b=%s %s' % (label, bound, 'violating' if stats['bad'] else 'clean')] += n
         res.extra['coarse_schedules'] = res.extra.get('coarse_schedules', 0) + n
@@ -269,7 +282,10 @@ def job_fine(a, b, k_lo, k_hi):
         if f.res != exp:
             f2 = sched.FineExec(body_a, body_b, k, _filter).go()
             if f2.res != f.res:
-                raise AssertionError('fine schedule not deterministic at k=%d' % k)
+                res.fail('schedule outcome not reproducible (state carried over between evaluations) statements=%d|%d' % (a[0], b[0]),
+                         {'kind': 'fine', 'a': list(a), 'b': list(b), 'k': k, 'texts': [POOL[a[0]], POOL[b[0]]]},
+                         'first run %r, replay %r, alone %r' % (f.res, f2.res, exp), size=1000 + k)
+                continue
             res.fail('interference (line granularity) statements=%d|%d' % (a[0], b[0]),
                      {'kind': 'fine', 'a': list(a), 'b': list(b), 'k': k, 'texts': [POOL[a[0]], POOL[b[0]]]},
                      'A preempted at line event %d (%r): A->%r B->%r; alone %r' % (k, f.where, f.res[0], f.res[1], exp),
@@ -383,21 +399,21 @@ def jobs(tier, seed):
         part = pairs[s::nsh]
         if part:
             out.append(('coarse-pairs-%02d' % s, 'job_coarse', (part, 1 if quick else 2, 'pair', None if quick else 40000)))
-    deep = [((1, 0), (2, 1)), ((1, 0), (1, 1)), ((3, 0), (3, 1)), ((5, 0), (5, 1)),
-            ((7, 0), (7, 1)), ((8, 0), (8, 1)), ((0, 0), (14, 1)), ((2, 0), (5, 1)), ((9, 0), (12, 1))]
+    # deeper bound for selected pairs; each group is split into disjoint shards of its schedule tree
+    deep = [((1, 0), (2, 1)), ((1, 0), (1, 1)), ((8, 0), (8, 1)), ((16, 4), (16, 5)), ((3, 3), (3, 3)), ((2, 3), (5, 3))]
+    if not quick:
+        deep += [((9, 0), (12, 1)), ((5, 3), (5, 3)), ((7, 3), (7, 3)), ((0, 3), (14, 3)), ((4, 3), (13, 3)), ((6, 3), (10, 3))]
     install_hooks()
-    npts = {}
-    for i in set(i for g in deep for i, d in g):
-        npts[i] = len(sched.Execution([lambda: evaluate(i, 0)], [], None).go().trace)
-    for s, g in enumerate(deep):
-        tot = sum(npts[i] for i, d in g)
-        # schedules with <= b preemptions grow like tot**b: keep each job within its tier's budget
+    for gi, g in enumerate(deep):
+        tot = sum(len(sched.Execution([lambda i=i, d=d: evaluate(i, d)], [], None).go().trace) for i, d in g)
         b = 2 if quick else 3
-        while b > 1 and tot ** b > (12000 if quick else 600000):
+        while b > 1 and tot ** b > (25000 if quick else 2000000):
             b -= 1
-        if quick and b < 2:
-            continue          # already covered at bound 1 by the pair jobs
-        out.append(('coarse-deep-%d' % s, 'job_coarse', ([g], b, 'pair-deep')))
+        if b < 2:
+            continue          # covered at bound 1 by the pair jobs
+        K = 6 if quick else 16
+        for k in range(K):
+            out.append(('coarse-deep-%d-%02d' % (gi, k), 'job_coarse', ([g], b, 'pair-deep', None, (k, K))))
     tcore = [1, 2, 8] if quick else [1, 2, 5, 7, 8]
     triples = [((a, 0), (b, 1), (c, 2)) for a, b, c in itertools.combinations_with_replacement(tcore, 3)]
     if quick:
@@ -417,10 +433,10 @@ def jobs(tier, seed):
         for lo in range(1, n + 1, step):
             out.append(('fine-%d-%d-%05d' % (a[0], b[0], lo), 'job_fine', (a, b, lo, lo + step)))
     mstep = 2500
-    for i in (MONITOR_Q if quick else range(len(POOL))):
-        n = sched.count_line_events(lambda: evaluate(i, 0), _filter)
+    for i, d in (MONITOR_Q if quick else [(i, 0) for i in range(len(POOL))]):
+        n = sched.count_line_events(lambda: evaluate(i, d), _filter)
         for lo in range(1, n + 1, mstep):
-            out.append(('monitor-%02d-%05d' % (i, lo), 'job_monitor', (i, 0, lo, lo + mstep)))
+            out.append(('monitor-%02d-%05d' % (i, lo), 'job_monitor', (i, d, lo, lo + mstep)))
     ep = [((1, 0), (2, 1)), ((8, 0), (8, 1))] if quick else [((a, 0), (b, 1)) for a, b in ((1, 2), (8, 8), (0, 14), (5, 5), (7, 6), (3, 3))]
     out.append(('evalpath', 'job_eval_path', (ep, 1 if quick else 2)))
     return out
